@@ -579,10 +579,10 @@ var nearMisses = map[string][]string{
 	"deviate":         {"", "Add", "ADD", "add ", "not_supported", "not-supported ", "notsupported", "remove", "not supported", "replace\n"},
 	"fraction-digits": {"", "0", "19", "20", "01", "05", "+5", "+1", "-1", "1.0", "1 ", " 1", "a", "100", "0x1", "１", "1_", "018"},
 	"yang-version":    {"", "1.0", "1.1", "2", "01", "+1", " 1", "1 ", "one", "１"},
-	"key":             {"", " ", "a/b", "a,b", "1a", "a b/c", "p:", ":a", "a:b:c", "xml", "a xmlb", "a;b", "é", "a é", "a | b", "a=b", "a:1"},
+	"key":             {"", " ", "a/b", "a,b", "1a", "a b/c", "p:", ":a", "a:b:c", "xml", "a xmlb", "a;b", "é", "a é", "a | b", "a=b", "a:1", "a\u00a0b", "a\vb", "a\fb", "\u00a0a", "a\u0085"},
 	"absolute-schema": {"", "a", "a/b", "/", "//a", "/a/", "/a//b", "/1a", "/a b", "/p:", "/:a", "/a:b:c", "/xml", "/a/xmlb", "/é", "/a/ b", " /a", "/a ", "/p:a/", "/a/1"},
 	"descendant":      {"", "/a", "a/", "a//b", "1a", "a b", "p:", ":a", "a:b:c", "xml", "a/xmlb", "é", "a/ b", " a", "a ", "a/1", "/", "a/b/"},
-	"unique":          {"", " ", "/a", "a/ b", "a /b", "a//b", "1a", "a,b", "p:", "a:b:c", "xml", "a xmlb/c", "é", "a é", "a/", "a b/"},
+	"unique":          {"", " ", "/a", "a/ b", "a /b", "a//b", "1a", "a,b", "p:", "a:b:c", "xml", "a xmlb/c", "é", "a é", "a/", "a b/", "a\u00a0b", "a\fb/c", "a/b\vc"},
 	"range":           {"", "abc", "1..", "..1", "1...2", "1..2..3", "1|", "|1", "1||2", "1 0..2 0", "1 0", "- 1", "0x10", "1_0", "+1", "01", "1e3", "1.", ".5", "1.5.2", "MIN", "Max", "min..min..max", "1;2", "1,2", "1-2", "1..2|", "minmax", "１", "1..2 3", "1.. 2..3", "a..b", "1..b", "--1", "1..+2"},
 	"length":          {"", "abc", "1..", "..1", "1...2", "1..2..3", "1|", "|1", "1||2", "1 0..2 0", "1 0", "-1", "-1..5", "0x10", "1_0", "+1", "01", "1e3", "1.5", "1.0", "MIN", "Max", "1;2", "1,2", "1-2", "1..2|", "minmax", "１", "1..2 3", "a..b", "0o7", "0b1", "1..0x5"},
 }
@@ -688,7 +688,11 @@ func init() {
 	sort.Strings(argKinds)
 }
 
-var editChars = []string{"", " ", "+", "-", "0", "1", "x", "_", ".", "/", ":", "|", "a", "é", "\t", "A", "9", "..", "0x", "e"}
+// editChars: inserted by the character-level edits; the last row are characters that Unicode counts as white space or
+// digits but the YANG grammar does not (vertical tab, form feed, NEL, no-break space, em space, ideographic space,
+// Arabic-Indic and fullwidth digits, fullwidth minus)
+var editChars = []string{"", " ", "+", "-", "0", "1", "x", "_", ".", "/", ":", "|", "a", "é", "\t", "A", "9", "..", "0x", "e",
+	"\v", "\f", "\u0085", "\u00a0", "\u2003", "\u3000", "\u0665", "\uff11", "\uff0d", "\r", "\n"}
 
 func genArg(t *rapid.T) ArgCase {
 	kind := argKinds[rapid.IntRange(0, len(argKinds)-1).Draw(t, "kind")]
